@@ -1,29 +1,25 @@
 package main
 
 import (
-	"context"
 	"fmt"
-	"io"
 	"os"
-	"runtime"
-	"time"
+	"strconv"
 
-	"github.com/risor-io/risor"
-	"github.com/risor-io/risor/object"
+	"verif/internal/props/c10"
 )
 
 func main() {
-	b, _ := io.ReadAll(os.Stdin)
-	ctx, cancel := context.WithTimeout(context.Background(), 10*time.Second)
-	defer cancel()
-	yield := object.NewBuiltin("yield", func(ctx context.Context, args ...object.Object) object.Object {
-		runtime.Gosched()
-		return object.Nil
-	})
-	res, err := risor.Eval(ctx, string(b), risor.WithConcurrency(), risor.WithGlobal("yield", yield))
-	if err != nil {
-		fmt.Println("ERR:", err)
-		os.Exit(1)
+	seed, _ := strconv.Atoi(os.Args[1])
+	lo, _ := strconv.Atoi(os.Args[2])
+	hi, _ := strconv.Atoi(os.Args[3])
+	show := len(os.Args) > 4
+	for i := lo; i < hi; i++ {
+		src, out := c10.DebugRun(uint64(seed), i, false, 1)
+		if show {
+			fmt.Println(src)
+		}
+		for _, o := range out {
+			fmt.Println(i, o)
+		}
 	}
-	fmt.Println(res.Inspect())
 }
